@@ -103,6 +103,15 @@ class DataSet:
                 "Data and DataArray must have the same dimensionality"
             )
 
+        # an axis counted from the end means what it means in numpy; an axis
+        # the DataArray does not have cannot be appended along (it used to
+        # pass the shape check and overwrite the data from the start)
+        if axis < 0:
+            axis += len(self.shape)
+        if not 0 <= axis < len(self.shape):
+            raise ValueError("axis is out of bounds for a DataArray with "
+                             "{} dimension(s)".format(len(self.shape)))
+
         if any([s != ds for i, (s, ds) in
                 enumerate(zip(self.shape, data.shape)) if i != axis]):
             raise ValueError("Shape of data and shape of DataArray must match "
